@@ -43,6 +43,10 @@ ASSUMPTIONS = [
     "later rows of one time point the index characterisation C20_context_iff holds and C20_ghost_row_context shows "
     "that their context also lists processes starting at that very time (observation, not a time point of the "
     "property)",
+    "consumer histories (unfold_context / HedTagManager.get_hed_objs with remove_types, in varying orders, on one "
+    "manager) are checked on the implementation against a freshly built manager (testing); the Coq side proves the "
+    "history theorem for an object-store model of _filter_hed (Model/EventQueries.v) whose filtering of one item is an "
+    "abstract function",
     "ghost rows (the second and later file rows of one time point, emptied by filter_series_by_onset) are not time "
     "points of the property: their event_list/base/hed_strings must be empty, their contexts are compared with the "
     "model only",
@@ -51,11 +55,16 @@ ASSUMPTIONS = [
 ]
 
 UNIT = 8
-NAMES = {1: "Alpha", 2: "Beta", 3: "Gam/3", 4: "Gam/4"}
-DEF_TEXT = "(Definition/Alpha, (Red)), (Definition/Beta, (Blue)), (Definition/Gam/#, (Label/#))"
-INNER = ["(Green)", "(Item-count/2,Square)", "(Sensory-event,(Yellow,Triangle))"]
+NAMES = {1: "Alpha", 2: "Beta", 3: "Gam/3", 4: "Gam/4", 5: "Fast", 6: "Tsk"}
+DEF_TEXT = ("(Definition/Alpha, (Red)), (Definition/Beta, (Blue)), (Definition/Gam/#, (Label/#)), "
+            "(Definition/Fast, (Condition-variable/Speed)), (Definition/Tsk, (Task, Blue))")
+INNER = ["(Green)", "(Item-count/2,Square)", "(Sensory-event,(Yellow,Triangle))", "(Condition-variable/Cv3,Green)",
+         "(Task,Red)"]
+# remove_types arguments of the consumers (type tags whose annotations / definitions are filtered out)
+RTS = [[], ["Condition-variable"], ["Task"], ["Condition-variable", "Task"]]
 PLAIN = ["Red", "(Blue,Green)", "Sensory-event", "Def/Beta", "(Def/Alpha,Inset)", "Agent-action,Move",
-         "(Label/x1,(Square))", "Item-count/3"]
+         "(Label/x1,(Square))", "Item-count/3",
+         "Condition-variable/Pace", "Def/Fast", "(Condition-variable/Cv2,Square)", "Task"]
 
 _state = {}
 
@@ -209,6 +218,24 @@ def build_input(case, tmpdir=None):
     return TabularInput(df, sidecar=sidecar), None
 
 
+def run_query(em, q):
+    """One consumer query on an EventManager; q = ["U", rt] unfold_context(remove_types=RTS[rt]) |
+    ["T", rt, include_context, replace_defs] HedTagManager(em, remove_types=RTS[rt]).get_hed_objs(...) |
+    ["S"] str of the stored hed_strings / base / contexts."""
+    from hed.tools.analysis.hed_tag_manager import HedTagManager
+    try:
+        if q[0] == "U":
+            h, b, c = em.unfold_context(remove_types=list(RTS[q[1]]))
+            return [[str(x) for x in h], [str(x) for x in b], [str(x) for x in c]]
+        if q[0] == "T":
+            tm = HedTagManager(em, remove_types=list(RTS[q[1]]))
+            return [None if o is None else str(o) for o in tm.get_hed_objs(include_context=bool(q[2]),
+                                                                             replace_defs=bool(q[3]))]
+        return [[str(x) for x in em.hed_strings], list(em.base), list(em.contexts)]
+    except Exception as e:  # noqa
+        return {"exn": type(e).__name__, "msg": str(e)[:100]}
+
+
 def to_units(x):
     if x is None:
         return None
@@ -238,6 +265,19 @@ def impl_one(case):
         tm = HedTagManager(em)
         r["objs"] = [str(o) if o is not None else "" for o in tm.get_hed_objs(include_context=True)]
         r["objs_nc"] = [str(o) if o is not None else "" for o in tm.get_hed_objs(include_context=False)]
+        qs = case.get("queries")
+        if qs:
+            # a consumer history on THIS manager; the reference answer of each distinct query comes from a
+            # manager built afresh for the same file and asked nothing else
+            r["answers"] = [run_query(em, q) for q in qs]
+            r["after"] = run_query(em, ["S"])
+            fresh = {}
+            for q in qs:
+                key = json.dumps(q)
+                if key not in fresh:
+                    ti2, defs2 = build_input(case, case.get("tmp"))
+                    fresh[key] = run_query(EventManager(ti2, env()["schema"], extra_defs=defs2), q)
+            r["fresh"] = fresh
     except Exception as e:  # noqa
         return {"exn": "late:" + type(e).__name__, "msg": str(e)[:120]}
     return r
@@ -306,6 +346,28 @@ def expected(case):
     return tps, procs
 
 
+def history_oracle(case, r):
+    """'The remaining annotation of each point is kept': whatever consumers asked before, every answer equals the
+    answer of a freshly built manager, and the manager's stored annotations are those it had after construction."""
+    bad = []
+    if "answers" not in r:
+        return bad
+    for k, (q, a) in enumerate(zip(case["queries"], r["answers"])):
+        f = r["fresh"][json.dumps(q)]
+        if a != f:
+            where = ""
+            if isinstance(a, list) and isinstance(f, list):
+                where = next((f" first difference: got={x!r} fresh={y!r}" for x, y in zip(a, f) if x != y), "")
+            bad.append(("annotation-kept-across-queries",
+                        f"step {k} query {q} after {case['queries'][:k]} differs from a fresh manager;{where}"[:600]))
+            break
+    snap = [r["hed"], r["base"], r["contexts"]]
+    if r["after"] != snap:
+        bad.append(("manager-data-unchanged-by-queries", f"after {case['queries']}: stored={r['after']} "
+                                                          f"at construction={snap}"[:600]))
+    return bad
+
+
 def oracle(case, r, res):
     """Each clause of the statement checked on the implementation's behaviour."""
     rep = dict(case)
@@ -315,6 +377,8 @@ def oracle(case, r, res):
             res.report("unordered-rejected", rep, f"impl={ {k: r[k] for k in r if k in ('exn', 'msg', 'onsets')} }")
         return
     if not is_valid(case):
+        for clause, detail in history_oracle(case, r):      # holds for every manager that could be built
+            res.report(clause, rep, detail, fid=None)
         return
     if "exn" in r:
         res.report("valid-history-accepted", rep, f"{r['exn']} {r.get('msg', r.get('code'))}")
@@ -366,7 +430,8 @@ def oracle(case, r, res):
         for i, t in enumerate(on):
             if first[t] != i and (r["events"][i] or r["base"][i] or r["hed"][i]):
                 bad.append(("one-time-point", f"row {i} shares onset {t} but is not empty"))
-    for clause, detail in bad[:3]:
+    bad = bad[:3] + history_oracle(case, r)
+    for clause, detail in bad[:4]:
         res.report(clause, rep, detail, fid=None)
 
 
@@ -475,10 +540,17 @@ CORPUS = [
     # equal-onset rows that mark the same name (not a valid file): stable order = file order
     mk([[0, [[None, "N", 1, 0]]], [0, [[None, "F", 1, 0]]], [0, [[None, "N", 1, 2]]], [8, [[None, "F", 1, 0]]]]),
     mk([[0, [[8, "N", 1, 0]]], [8, [[None, "F", 1, 0]]], [16, []]]),
+    # consumer histories on one manager: filtered before plain, plain before filtered, repeated
+    mk([[0, [[None, "P", 0, 0], [None, "N", 5, 0]]], [8, [[None, "P", 8, 0], [None, "P", 10, 0]]],
+        [16, [[None, "P", 9, 0], [None, "N", 6, 0x62]]], [24, [[None, "F", 5, 0], [None, "U", 16, 0x80]]],
+        [32, [[None, "P", 11, 0]]]],
+       queries=[["T", 1, 1, 0], ["U", 0], ["T", 0, 1, 0], ["U", 3], ["U", 0], ["S"]]),
+    mk([[0, [[None, "P", 8, 0], [None, "N", 1, 0]]], [8, [[None, "P", 9, 0]]], [16, [[None, "F", 1, 0], [None, "P", 11, 0]]]],
+       mode=1, queries=[["U", 0], ["U", 1], ["U", 1], ["T", 2, 0, 1], ["T", 0, 1, 1], ["U", 0]]),
 ]
 
 
-def gen_valid(rng, size, mode=None, maxgap=3, names=(1, 2, 3, 4), p_delay=0.25, samepoint=False, hub=False):
+def gen_valid(rng, size, mode=None, maxgap=3, names=(1, 2, 3, 4, 5, 6), p_delay=0.25, samepoint=False, hub=False):
     """A valid history built on the time axis, then distributed over file rows."""
     ntp = rng.randint(1, size)
     t, times = rng.choice([0, 0, 4, 8]), []
@@ -545,6 +617,22 @@ def gen_valid(rng, size, mode=None, maxgap=3, names=(1, 2, 3, 4), p_delay=0.25, 
     return mk(rows, mode=mode, blank=rng.random() < 0.2)
 
 
+def gen_queries(rng):
+    """A consumer history on one manager: filtered and plain reports in varying orders, with repeats."""
+    def one():
+        x = rng.random()
+        rt = rng.choice([0, 1, 1, 2, 3, 3])
+        if x < 0.4:
+            return ["U", rt]
+        if x < 0.85:
+            return ["T", rt, rng.randrange(2), rng.randrange(2)]
+        return ["S"]
+    qs = [one() for _ in range(rng.choice([2, 3, 3, 4, 5]))]
+    if rng.random() < 0.5:
+        qs.append(rng.choice([["U", 0], ["T", 0, 1, 0], qs[0]]))     # a plain or repeated report at the end
+    return qs
+
+
 def gen_malformed(rng, size):
     c = gen_valid(rng, size, p_delay=0.15)
     rows = c["rows"]
@@ -608,16 +696,18 @@ def run(tier, seed, res, model_ok=True, proof_ok=True):
     n_exh_full = len(exh)
     if quick:
         # the quick tier draws a deterministic sample of the exhaustive families from the seed; thorough runs them all
-        exh = rng.sample(exh, 9000 if proof_ok else 25000)
+        exh = rng.sample(exh, 6500 if proof_ok else 25000)
     n_exh = len(exh)
     cases += exh
-    nval = 5000 if quick else 40000
+    nval = 4500 if quick else 40000
     if not proof_ok:
         nval *= 3
     for i in range(nval):
-        size = rng.choice([2, 3, 4, 5, 6, 8, 12]) if i % 10 else rng.choice([20, 40, 80])
+        size = rng.choice([2, 3, 4, 5, 6, 8, 12]) if i % 10 else rng.choice([20, 40, 80] if not quick else [20, 30, 50])
         cases.append(gen_valid(rng, size, samepoint=(i % 7 == 0), hub=(i % 4 == 1),
                                p_delay=(0.6 if i % 4 == 1 else 0.25)))
+        if i % 5 == 2:
+            cases[-1]["queries"] = gen_queries(rng)
     for i in range(nval // 6):
         cases.append(gen_malformed(rng, rng.choice([2, 3, 4, 6, 10])))
     # VERIF_C20_FRACTION=0.1 keeps the corpus and every 10th generated case (a subset of the full run; used for
